@@ -195,13 +195,14 @@ func ManageDeployment(client runtimeclient.Client, daemonset *datadoghqv1alpha1.
 				datadoghqv1alpha1.ExtendedDaemonSetReplicaSetNameLabelKey:   params.Replicaset.GetName(),
 			},
 		}
-		if err = client.List(context.TODO(), canaryPods, listOptions...); err != nil {
-			params.Logger.Error(err, "Couldn't get canary pods")
+		// these errors only lead to a requeue: they must not overwrite the clean-up error returned below
+		if listErr := client.List(context.TODO(), canaryPods, listOptions...); listErr != nil {
+			params.Logger.Error(listErr, "Couldn't get canary pods")
 			result.Result.Requeue = true
 		} else {
 			for _, pod := range canaryPods.Items {
-				if err = deletePodLabel(params.Logger, client, &pod, datadoghqv1alpha1.ExtendedDaemonSetReplicaSetCanaryLabelKey); err != nil {
-					params.Logger.Error(err, fmt.Sprintf("Couldn't remove canary label from pod '%s/%s'", pod.GetNamespace(), pod.GetName()))
+				if labelErr := deletePodLabel(params.Logger, client, &pod, datadoghqv1alpha1.ExtendedDaemonSetReplicaSetCanaryLabelKey); labelErr != nil {
+					params.Logger.Error(labelErr, fmt.Sprintf("Couldn't remove canary label from pod '%s/%s'", pod.GetNamespace(), pod.GetName()))
 					result.Result.Requeue = true
 				}
 			}
